@@ -74,7 +74,7 @@ ENGINES = [
          kind_free_text="TLA+ spec of the socket buffer and chunk decoder; TLC over all segmentations; TLC trace validation of the real SocketWrapper over a scripted socket"),
     dict(name="parallel", path="spec/Parallel.tla harness/parallel_run.py harness/props/c13.py",
          kind_free_text="two Decode instances with work lists and shared tables; TLC over all interleavings; TLC-generated schedules for a deterministic thread scheduler on the real code"),
-    dict(name="framer", path="spec/Framer.tla spec/MC_Framer.tla spec/FramerTrace.tla spec/FramerOut.tla harness/framer_engine.py harness/framer_replay.py",
+    dict(name="framer", path="spec/Framer.tla spec/MC_Framer.tla spec/FramerTrace.tla spec/FramerOut.tla spec/SliceJudge.tla harness/framer_engine.py harness/framer_replay.py",
          kind_free_text="TLA+ spec of RTCMReader.read as a state machine driven by a faulty stream; TLC model checking, replay of the state graph into the real reader, TLC trace validation"),
 ]
 
